@@ -330,8 +330,8 @@ def check_C07(ctx):
     # and grammars with more than ten / a hundred of everything
     for _ in range(ctx.n(150, 4000)):
         cases.append(('first-stress', gen.render(ctx.rng, gen.gen_first_stress(ctx.rng), 'plain')))
-    for _ in range(ctx.n(6, 100)):
-        cases.append(('large', gen.render(ctx.rng, gen.gen_grammar(ctx.rng, max_nts=ctx.rng.choice([12, 25, 45]), max_terms=ctx.rng.choice([12, 30]), min_sizes=True), 'plain')))
+    for _ in range(5 if ctx.quick else 40):     # not scaled by the change-aware budget: the extracted model is slow on these
+        cases.append(('large', gen.render(ctx.rng, gen.gen_grammar(ctx.rng, max_nts=ctx.rng.choice([12, 18, 25]), max_terms=ctx.rng.choice([12, 30]), min_sizes=True), 'plain')))
     # naming/grammar-level malformations: files with injected static-validation violations
     for _ in range(ctx.n(150, 6000)):
         g = gen.gen_grammar(ctx.rng, max_nts=5)
@@ -787,6 +787,26 @@ def automaton_cases(ctx, n):
     cases = [(l, s) for l, s in corpus_sources()]
     for g, s in grammar_batch(ctx, n, max_nts=5, bias_lalr=ctx.rng.choice([0.3, 0.6, 0.9]), motifs=0.7):
         cases.append(('generated', s))
+    for _ in range(ctx.n(12, 200)):
+        cases.append(('conflict-motif', gen.render(ctx.rng, gen.conflict_motif(ctx.rng), 'plain')))
+    # large automata (hundreds of states and transitions, dozens of terminals) made of small pieces: accepted pieces plus at
+    # most one conflicting piece, so that a small conflict pattern is THE conflict of a big automaton
+    pool = [gen.gen_grammar(ctx.rng, max_nts=3, max_terms=3, adversarial=0.0, name_relations=0.0, many_terminals=0.0, letterless=0.0,
+                            bias_lalr=ctx.rng.choice([0.6, 0.9]), motifs=0.4) for _ in range(ctx.n(160, 1500))]
+    verdicts = vlib.run_rust('gen', hex_lines([gen.render(ctx.rng, h, 'plain') for h in pool]))
+    okp = [h for h, x in zip(pool, verdicts) if x.startswith('Ok(')]
+    cfp = [h for h, x in zip(pool, verdicts) if x.startswith('Err(TableConflict(')]
+    for _ in range(ctx.n(20, 300)):
+        k = ctx.rng.choice([14, 24, 32, 40])
+        if len(okp) < 3:
+            break
+        parts = [ctx.rng.choice(okp) for _ in range(k)]
+        r = ctx.rng.random()
+        if r < 0.4:
+            parts[ctx.rng.randrange(k)] = gen.conflict_motif(ctx.rng)
+        elif cfp and r < 0.75:
+            parts[ctx.rng.randrange(k)] = ctx.rng.choice(cfp)
+        cases.append(('joined', gen.render(ctx.rng, gen.join_grammars(ctx.rng, parts), 'plain')))
     return cases
 
 
@@ -794,11 +814,20 @@ def check_automaton(ctx, pid):
     res = Result()
     cases = automaton_cases(ctx, ctx.n(300, 5000))
     srcs = [s for _, s in cases]
-    r, m = mt_both(ctx, srcs)
+    # the large joined grammars go through the crate and the reference only: the extracted model (unary numbers, list-based
+    # sets) needs minutes for an automaton of a few hundred states
+    small = [i for i, (l, _) in enumerate(cases) if l != 'joined']
+    r = vlib.run_rust('mt', hex_lines(srcs))
+    m = [None] * len(srcs)
+    if ctx.model_ok:
+        for i, y in zip(small, vlib.run_model('mt', ['0 ' + vlib.cps(srcs[i]) for i in small])):
+            m[i] = y
     rg = vlib.run_rust('gen', hex_lines(srcs))
     hist = {}
     budget = ctx.n(150, 2500)
     for (label, s), x, y, xg in zip(cases, r, m, rg):
+        if label == 'joined':
+            budget += 1          # always compared with the reference
         parsed = oracles.parse_mt(x)
         cls = 'front-end-error' if parsed is None else ('conflict' if parsed['conflict'] else 'ok')
         hist[cls] = hist.get(cls, 0) + 1
@@ -820,7 +849,7 @@ def check_automaton(ctx, pid):
         disagree = y is not None and x != y
         if fail is None and (budget > 0 or disagree):
             budget -= 1
-            ref = oracles.lalr_reference(parsed['file'])
+            ref = oracles.lalr_reference(parsed['file'], max_states=(3000 if label == 'joined' else 400))
             if ref is not None:
                 fail = oracles.compare_with_reference(pid, parsed, ref, xg)
         if fail is not None:
